@@ -348,6 +348,15 @@ func probeFarPositions() string {
 		2: {strings.Repeat("ab,", n), strings.Repeat("a,\n", n)},
 		3: {strings.Repeat("{{a}} ", n), strings.Repeat("{{a}} \n", n)},
 	}
+	// two-character line breaks at every alignment with respect to the powers of two up to 8192 (a scanner that
+	// remembers positions per block of input meets a break that straddles the block boundary), each followed by a token
+	// whose state reads one character too far and puts a line break back
+	for off := 0; off < 4; off++ {
+		for _, brk := range []string{"\n\r", "\r\n"} {
+			texts[0] = append(texts[0], strings.Repeat("x", off)+strings.Repeat("ab"+brk, 2300))
+			texts[2] = append(texts[2], strings.Repeat("x", off)+strings.Repeat("ab"+brk, 2300))
+		}
+	}
 	for kind := 0; kind < 4; kind++ {
 		for _, text := range texts[kind] {
 			t := newTokenizer(kind, defaultCsvCfg)
@@ -559,6 +568,17 @@ func genTok(optionMode string) func(ctx *Ctx) {
 					for b := 0; b < 128; b++ {
 						ctx.Count("option-sweep:" + tokNames[kind])
 						ctx.Input(tokInput(kind, b, []rune(t), cfg), true)
+					}
+				}
+			}
+		}
+		// scale (direct oracle only): more than a thousand tokens in a row that an option drops, and long runs of every kind
+		if optionMode == "all" && ctx.P.ID == "C15" {
+			for _, t := range []string{strings.Repeat("😀", 1300), strings.Repeat("/*c*/", 1300), "a " + strings.Repeat("#c\n ", 700) + "b", strings.Repeat("\uffff ", 1100) + "x",
+				strings.Repeat("/* c */ ", 1100) + "1", strings.Repeat(" \t", 1500) + "a", strings.Repeat("😀/*c*/ ", 600) + "'q'", strings.Repeat("{{!c}}", 1100) + "t", strings.Repeat("1 ", 1100), strings.Repeat("'a' ", 1100)} {
+				for kind := 0; kind < 4; kind++ {
+					for _, b := range []int{0, 1, 2, 4, 6, 7, 16, 32, 64, 127} {
+						ctx.OracleOnly(tokInput(kind, b, []rune(t), defaultCsvCfg), "scale: long runs of droppable tokens")
 					}
 				}
 			}
